@@ -30,7 +30,10 @@ def abs_expr(node):
     kids = list(node.children)
     if not kids:
         if isinstance(v, PDDLFunction):
-            return [v.name] + list(v.signature.keys())
+            # the positional argument list where the object carries one (a name-keyed signature holds a repeated
+            # argument only once)
+            args = getattr(v, "arguments", None)
+            return [v.name] + (list(args) if args is not None else list(v.signature.keys()))
         return _num(v)
     if not isinstance(v, str):
         raise AbsError("operator node without a string value")
